@@ -100,6 +100,73 @@ static string domains_token(Function& f, const ExprNode& root, const Array<const
 
 
 // ---- expressions with elementary functions (workload c02t): judged at points by the MPFR interval oracle of mp_dag.h
+// ---- fixed-arity overloads of Function::Function(x1..xN, y) and Function::operator()(e1..eN), N = 1..20: each is its own code.
+// The model is the expression written WITHOUT these overloads (sum of weighted arguments); the implementation is evaluated on boxes.
+static void arity_tests(Rng& r) {
+  for (int N = 1; N <= 20; N++) {
+    Array<const ExprSymbol> a(N); for (int i = 0; i < N; i++) a.set_ref(i, ExprSymbol::new_(("a" + to_string(i)).c_str(), Dim::scalar()));
+    const ExprNode* y = 0; for (int i = 0; i < N; i++) { const ExprNode& t = (double)(i + 1) * a[i]; y = y ? &(*y + t) : &t; } y = &(*y + a[0] * a[N - 1]);
+    Function* g = 0;
+    switch (N) {
+      case 1: g = new Function(a[0], *y); break;
+      case 2: g = new Function(a[0], a[1], *y); break;
+      case 3: g = new Function(a[0], a[1], a[2], *y); break;
+      case 4: g = new Function(a[0], a[1], a[2], a[3], *y); break;
+      case 5: g = new Function(a[0], a[1], a[2], a[3], a[4], *y); break;
+      case 6: g = new Function(a[0], a[1], a[2], a[3], a[4], a[5], *y); break;
+      case 7: g = new Function(a[0], a[1], a[2], a[3], a[4], a[5], a[6], *y); break;
+      case 8: g = new Function(a[0], a[1], a[2], a[3], a[4], a[5], a[6], a[7], *y); break;
+      case 9: g = new Function(a[0], a[1], a[2], a[3], a[4], a[5], a[6], a[7], a[8], *y); break;
+      case 10: g = new Function(a[0], a[1], a[2], a[3], a[4], a[5], a[6], a[7], a[8], a[9], *y); break;
+      case 11: g = new Function(a[0], a[1], a[2], a[3], a[4], a[5], a[6], a[7], a[8], a[9], a[10], *y); break;
+      case 12: g = new Function(a[0], a[1], a[2], a[3], a[4], a[5], a[6], a[7], a[8], a[9], a[10], a[11], *y); break;
+      case 13: g = new Function(a[0], a[1], a[2], a[3], a[4], a[5], a[6], a[7], a[8], a[9], a[10], a[11], a[12], *y); break;
+      case 14: g = new Function(a[0], a[1], a[2], a[3], a[4], a[5], a[6], a[7], a[8], a[9], a[10], a[11], a[12], a[13], *y); break;
+      case 15: g = new Function(a[0], a[1], a[2], a[3], a[4], a[5], a[6], a[7], a[8], a[9], a[10], a[11], a[12], a[13], a[14], *y); break;
+      case 16: g = new Function(a[0], a[1], a[2], a[3], a[4], a[5], a[6], a[7], a[8], a[9], a[10], a[11], a[12], a[13], a[14], a[15], *y); break;
+      case 17: g = new Function(a[0], a[1], a[2], a[3], a[4], a[5], a[6], a[7], a[8], a[9], a[10], a[11], a[12], a[13], a[14], a[15], a[16], *y); break;
+      case 18: g = new Function(a[0], a[1], a[2], a[3], a[4], a[5], a[6], a[7], a[8], a[9], a[10], a[11], a[12], a[13], a[14], a[15], a[16], a[17], *y); break;
+      case 19: g = new Function(a[0], a[1], a[2], a[3], a[4], a[5], a[6], a[7], a[8], a[9], a[10], a[11], a[12], a[13], a[14], a[15], a[16], a[17], a[18], *y); break;
+      case 20: g = new Function(a[0], a[1], a[2], a[3], a[4], a[5], a[6], a[7], a[8], a[9], a[10], a[11], a[12], a[13], a[14], a[15], a[16], a[17], a[18], a[19], *y); break;
+    }
+    // (1) the constructor: g evaluated on boxes against its own expression over the symbols in MY order
+    string gd = dump_expr(*y, a);
+    for (int k = 0; k < 3; k++) { IntervalVector box = gen_box(r, N); for (int i = 0; i < N; i++) if (box[i].is_unbounded()) box[i] = Interval(-2, 3); Interval res = g->eval(box); Vector p = pick_point(r, box);
+      EMIT("evalpt %s %s => %s\n", gd.c_str(), ptok(p).c_str(), res.is_empty() ? "E" : mtok(res).c_str()); }
+    // (2) the application: h(x0,x1) = g(e_1,..,e_N) with e_i = x0 + i*x1 (i odd) or x0*x1 - i (i even)
+    Array<const ExprSymbol> x(2); x.set_ref(0, ExprSymbol::new_("x0", Dim::scalar())); x.set_ref(1, ExprSymbol::new_("x1", Dim::scalar()));
+    vector<const ExprNode*> e, e2; for (int i = 0; i < N; i++) { for (int c = 0; c < 2; c++) { const ExprNode& t = (i % 2) ? (const ExprNode&)(x[0] + (double)(i + 1) * x[1]) : (const ExprNode&)(x[0] * x[1] - (double)(i + 1)); (c ? e2 : e).push_back(&t); } }
+    const ExprNode* app = 0;
+    switch (N) {
+      case 1: app = &(*g)(*e[0]); break;
+      case 2: app = &(*g)(*e[0], *e[1]); break;
+      case 3: app = &(*g)(*e[0], *e[1], *e[2]); break;
+      case 4: app = &(*g)(*e[0], *e[1], *e[2], *e[3]); break;
+      case 5: app = &(*g)(*e[0], *e[1], *e[2], *e[3], *e[4]); break;
+      case 6: app = &(*g)(*e[0], *e[1], *e[2], *e[3], *e[4], *e[5]); break;
+      case 7: app = &(*g)(*e[0], *e[1], *e[2], *e[3], *e[4], *e[5], *e[6]); break;
+      case 8: app = &(*g)(*e[0], *e[1], *e[2], *e[3], *e[4], *e[5], *e[6], *e[7]); break;
+      case 9: app = &(*g)(*e[0], *e[1], *e[2], *e[3], *e[4], *e[5], *e[6], *e[7], *e[8]); break;
+      case 10: app = &(*g)(*e[0], *e[1], *e[2], *e[3], *e[4], *e[5], *e[6], *e[7], *e[8], *e[9]); break;
+      case 11: app = &(*g)(*e[0], *e[1], *e[2], *e[3], *e[4], *e[5], *e[6], *e[7], *e[8], *e[9], *e[10]); break;
+      case 12: app = &(*g)(*e[0], *e[1], *e[2], *e[3], *e[4], *e[5], *e[6], *e[7], *e[8], *e[9], *e[10], *e[11]); break;
+      case 13: app = &(*g)(*e[0], *e[1], *e[2], *e[3], *e[4], *e[5], *e[6], *e[7], *e[8], *e[9], *e[10], *e[11], *e[12]); break;
+      case 14: app = &(*g)(*e[0], *e[1], *e[2], *e[3], *e[4], *e[5], *e[6], *e[7], *e[8], *e[9], *e[10], *e[11], *e[12], *e[13]); break;
+      case 15: app = &(*g)(*e[0], *e[1], *e[2], *e[3], *e[4], *e[5], *e[6], *e[7], *e[8], *e[9], *e[10], *e[11], *e[12], *e[13], *e[14]); break;
+      case 16: app = &(*g)(*e[0], *e[1], *e[2], *e[3], *e[4], *e[5], *e[6], *e[7], *e[8], *e[9], *e[10], *e[11], *e[12], *e[13], *e[14], *e[15]); break;
+      case 17: app = &(*g)(*e[0], *e[1], *e[2], *e[3], *e[4], *e[5], *e[6], *e[7], *e[8], *e[9], *e[10], *e[11], *e[12], *e[13], *e[14], *e[15], *e[16]); break;
+      case 18: app = &(*g)(*e[0], *e[1], *e[2], *e[3], *e[4], *e[5], *e[6], *e[7], *e[8], *e[9], *e[10], *e[11], *e[12], *e[13], *e[14], *e[15], *e[16], *e[17]); break;
+      case 19: app = &(*g)(*e[0], *e[1], *e[2], *e[3], *e[4], *e[5], *e[6], *e[7], *e[8], *e[9], *e[10], *e[11], *e[12], *e[13], *e[14], *e[15], *e[16], *e[17], *e[18]); break;
+      case 20: app = &(*g)(*e[0], *e[1], *e[2], *e[3], *e[4], *e[5], *e[6], *e[7], *e[8], *e[9], *e[10], *e[11], *e[12], *e[13], *e[14], *e[15], *e[16], *e[17], *e[18], *e[19]); break;
+    }
+    const ExprNode* exp = 0; for (int i = 0; i < N; i++) { const ExprNode& t = (double)(i + 1) * *e2[i]; exp = exp ? &(*exp + t) : &t; } exp = &(*exp + *e2[0] * *e2[N - 1]);
+    string hd = dump_expr(*exp, x);
+    Function h(x, *app, "h");
+    for (int k = 0; k < 3; k++) { IntervalVector box = gen_box(r, 2); for (int i = 0; i < 2; i++) if (box[i].is_unbounded()) box[i] = Interval(-2, 3); Interval res = h.eval(box); Vector p = pick_point(r, box);
+      EMIT("evalpt %s %s => %s\n", hd.c_str(), ptok(p).c_str(), res.is_empty() ? "E" : mtok(res).c_str()); }
+  }
+}
+
 static void wl_c02t(Rng& r, long n) {
   for (long it = 0; it < n; it++) {
     try {
@@ -151,7 +218,20 @@ int main(int argc, char** argv) {
       if (WIFSIGNALED(st)) EMIT("evalfork outerproduct => SIGNAL%d\n", WTERMSIG(st));
       else EMIT("evalfork outerproduct => EXIT%d\n", WEXITSTATUS(st));
     }
+    arity_tests(r);
+    Rng r0(r.next());
     for (long it = 0; it < n; it++) {
+      // one forked child per iteration: a crash of the library is one line (with the iteration number), the other iterations go on
+      Rng r(r0.next() ^ (uint64_t)it * 0x9E3779B97F4A7C15ull);
+      bool forked = !getenv("H_EXPR_NOFORK");
+      if (forked) {
+        fflush(stdout);
+        pid_t pid = fork();
+        if (pid > 0) { int st = 0; waitpid(pid, &st, 0); if (WIFSIGNALED(st)) EMIT("evalerror c02 crash-signal-%d-it=%ld => 0\n", WTERMSIG(st), it); continue; }
+        if (pid == 0) { static char* big = 0; if (!big) big = (char*)malloc(1 << 22); setvbuf(stdout, big, _IOFBF, 1 << 22); }
+        if (pid < 0) forked = false;
+      }
+      do {
       GenCfg cfg; cfg.max_depth = r.range(1, 4); cfg.thick_consts = false; cfg.allow_vec = r.coin(70); cfg.allow_apply = r.coin(50); cfg.allow_sqrt = r.coin(40);
       int rows = 1, cols = 1;
       if (cfg.allow_vec) switch (r.below(6)) { case 0: rows = r.range(2, 4); break; case 1: cols = r.range(2, 4); break; case 2: rows = r.range(2, 3); cols = r.range(2, 3); break; case 3: rows = r.range(2, 3); cols = r.range(3, 5); break; default: break; }
@@ -207,6 +287,8 @@ int main(int argc, char** argv) {
         }
       }
       } catch (std::exception& e) { EMIT("evalerror %s %s => 0\n", b.dag.c_str(), e.what()); }
+      } while (0);
+      if (forked) { fflush(stdout); VH_EXIT(0); }
     }
   } else if (wl == "c02t") { wl_c02t(r, n);
   } else { fprintf(stderr, "unknown workload\n"); return 2; }
